@@ -976,6 +976,8 @@ def run(tier: str, seed: int, replay: str | None = None) -> int:
         scale = min(scale, max(1, int(os.environ["VERIF_C16_MAX_SCALE"])))
     n_files = (170 if tier == "quick" else 1800) * scale
     n_cfg = 6 if tier == "quick" else 8
+    if os.environ.get("VERIF_C16_FILES"):          # selftest trials only: the first N generated files (a subset of the normal run) + the corpus
+        n_files = min(n_files, max(10, int(os.environ["VERIF_C16_FILES"])))
     if replay:
         rc_ = json.loads(Path(replay).read_text())["violation"]["case"]
         jobs = [rc_["group"]] if "group" in rc_ else [rc_]
@@ -1106,4 +1108,32 @@ def run(tier: str, seed: int, replay: str | None = None) -> int:
                              " (a listed defect is no longer observed; theorems hold for every vector)")
         else:
             chk.correspondence_broken({"level": "observable" + (" (model built from the Gen.expected snapshot)" if snapshot_used else ""), "detail": "Model/Srp.v under Actual/SrpActual.v disagrees with the implementation and no candidate quirk vector matches all cases"})
+    if chk.violations and not replay:
+        prefer_reproducible(chk)
     return chk.finish()
+
+
+def _fresh(case):
+    return run_impl(case)
+
+
+def prefer_reproducible(chk):
+    """The replay written by finish() is violations[0].  A single-file case of the API stream ran on an orchestrator that had linted other files
+    before it: when its failure is caused by state carried over from those files it does not reproduce alone.  Re-run the first such cases in
+    fresh processes; a failure that vanishes there is annotated and moved behind the violations that replay (project runs re-run the whole
+    project, so they reproduce carried-over state)."""
+    def single(v):
+        c = v.get("case")
+        return isinstance(c, dict) and "group" not in c and c.get("via") == "api" and "impl" in v and len(c.get("configs", [])) == 1
+    head = [v for v in chk.violations[:6] if single(v)]
+    if not head:
+        return
+    reruns = pool_map(_fresh, [v["case"] for v in head] + [head[0]["case"]], procs=2)     # >= 2 items: always forked children
+    vanished = []
+    for v, res in zip(head, reruns):
+        if res["runs"] and res["runs"][0] != v["impl"]:
+            v["not_reproducible_alone"] = ("on a fresh orchestrator this file gets " + json.dumps(res["runs"][0])[:300] + ": the reported output depends on "
+                                           "files linted earlier by the same rule instance (state kept between files)")
+            vanished.append(id(v))
+    if vanished:
+        chk.violations.sort(key=lambda v: 1 if id(v) in vanished else 0)
